@@ -87,7 +87,7 @@ def gen_case(rng, k, quick, kind=None):
         elif r < 0.24:
             ns = rng.choice([0, 1, 1, 2, 3, 16, 255]) if kind == "sds" or rng.random() < 0.3 else 1
             L.append("setdesktopsize %d %d %d %d %d" % (c, rng.choice([W, W + 8, 1, 640]), rng.choice([H, H + 8, 1, 480]),
-                                                        ns, rng.choice([0, 0, 1, 1, 2, 3])))
+                                                        ns, rng.choice([0, 0, 1, 1, 2, 3] if rng.random() < 0.9 else [65536, 65537, -1, 70000])))
         elif r < 0.40:
             L.append("draw %d %d %d %d %d" % (C02.rnd_mark_args(rng, W, H) + (rng.randint(0, 999),)))
         elif r < 0.47:
@@ -367,7 +367,7 @@ def oracle_case(case, impl_lines, crash):
                 for (k, v, _) in rects:
                     if k == "E" and ci in owed:
                         want = owed.pop(ci)
-                        if (v[0], v[1]) != (1, want):
+                        if (v[0], v[1]) != (1, want & 0xffff):     # the status travels as a 16-bit field
                             return ("client %d asked for a desktop size change and the application answered %d; the next "
                                     "ExtendedDesktopSize message it receives (after '%s') carries reason %d / status %d "
                                     "instead of reason 1 (this client) / status %d: its request is never answered"
@@ -401,7 +401,8 @@ def oracle_case(case, impl_lines, crash):
                     if ok and kinds[0] == "N":
                         ok = rects[0][1] == [EW, EH] and pc["f"][5] == "0"
                     if ok and kinds[0] == "E":
-                        ok = rects[0][1] == [pc["q"][0], pc["q"][1], EW, EH] and pc["f"][5] == "1"
+                        # (reason and status are 16-bit fields on the wire)
+                        ok = rects[0][1] == [pc["q"][0] & 0xffff, pc["q"][1] & 0xffff, EW, EH] and pc["f"][5] == "1"
                     if not ok:
                         return ("client %d (resize support, size message pending) received %s after '%s', expected exactly "
                                 "one size pseudo-rectangle %dx%d%s" % (ci, [(k, v) for (k, v, _) in rects], opline, W, H,
